@@ -4,7 +4,7 @@
 set -u
 P=$1
 if [ -n "$(git -C /repo status --porcelain)" ]; then echo "REPO NOT CLEAN"; exit 2; fi
-SV=/tmp/seedev; rm -rf $SV; mkdir -p $SV/evidence; cp /verif/known_findings.json $SV/
+SV=/tmp/seedev; rm -rf $SV; mkdir -p $SV/evidence; cp /verif/known_findings.json $SV/; cp -r /verif/golden $SV/
 git -C /repo apply --3way $P 2>/dev/null || git -C /repo apply $P || { echo "APPLY FAILED"; exit 2; }
 /verif/bin/sodcheck -prop all -verif $SV > $SV/out.txt 2>&1
 echo "exit=$?"
